@@ -48,6 +48,10 @@ def build_pool():
     hot += [('fn', '\\x41', F.W, 'x41'), ('fn', '\\x41', F.W | F.R, 'A'), ('fn', '\\x2a', F.W | F.R, 'zz'), ('fn', '\\x2a', F.W, 'x2a'),
             ('gm', '\\x41', G.W, 'x41'), ('gm', '\\x41', G.W | G.R, 'A'), ('fnb', '\\x41', F.W | F.R, 'A'), ('fnb', '\\x41', F.W, 'x41'),
             ('fn', '\\x41', F.R, 'A'), ('fn', '\\x41', 0, 'x41')]
+    # the same exclude= patterns under flag sets that differ in a flag acting on the exclusion side only (NODIR, DOTGLOB, ...)
+    hot += [('gmx', '*', G.O, 'a/'), ('gmx', '*', 0, 'a/'), ('gmx', '*', G.O, 'a'), ('gmx', '*', 0, 'a'), ('gmx', '**', G.G | G.O, 'x/y/'),
+            ('gmx', '**', G.G, 'x/y/'), ('gmx', '*', G.O | G.D, '.a/'), ('gmx', '*', G.D, '.a/'), ('fnx', '*', 0, 'ba'), ('fnx', '*', F.I, 'Ba'),
+            ('fnx', '*', 0, 'Ba'), ('gmx', '*/', G.O, 'a/'), ('gmx', '*/', 0, 'a/'), ('gtx', '*', G.O, None), ('gtx', '*', 0, None)]
     pool = []
     for p in PATS:
         for fl in FLAGSETS_FN:
@@ -89,6 +93,12 @@ def call(d, root):
             return G.globmatch(nm.encode(), p.encode(), flags=fl)
         if kind == 'gt':
             return G.translate(p, flags=fl)
+        if kind == 'gmx':
+            return G.globmatch(nm, p, flags=fl, exclude='b*')
+        if kind == 'gtx':
+            return G.translate(p, flags=fl, exclude='b*')
+        if kind == 'fnx':
+            return F.fnmatch(nm, p, flags=fl, exclude='b*')
         if kind == 'gg':
             with util.ScandirCounter(3000):
                 return sorted(G.glob(p, flags=fl & ~(G.L), root_dir=root))
@@ -360,6 +370,11 @@ def run_objects(desc):
                 ms[('gl', p, fl, None)] = G.compile(p, flags=fl)
             except Exception:
                 pass
+        for fl in (G.O, 0, G.O | G.G):
+            try:
+                ms[('gl', p, fl, 'b*')] = G.compile(p, flags=fl, exclude='b*')
+            except Exception:
+                pass
     keys = list(ms)
     names = NAMES + ['b', 'bb', 'a.b']
     beh = {k: tuple(bool(ms[k].match(n)) for n in names) for k in keys}
@@ -380,7 +395,7 @@ def run_objects(desc):
     for k, m in ms.items():
         out.evaluations += 1
         kind, p, fl, ex = k
-        again = F.compile(p, flags=fl, exclude=ex) if kind == 'fn' else G.compile(p, flags=fl)
+        again = F.compile(p, flags=fl, exclude=ex) if kind == 'fn' else (G.compile(p, flags=fl) if ex is None else G.compile(p, flags=fl, exclude=ex))
         m2 = pickle.loads(pickle.dumps(m))
         m3 = copy.deepcopy(m)
         m4 = copy.copy(m)
@@ -849,7 +864,7 @@ def replay(case):
             for h in case['history']:
                 if h == 'cache_clear':
                     util.clear_caches()
-                elif isinstance(h, list) and h and h[0] in ('fn', 'fnb', 'fc', 'ft', 'ftb', 'gm', 'gmb', 'gt', 'gg'):
+                elif isinstance(h, list) and h and h[0] in ('fn', 'fnb', 'fc', 'ft', 'ftb', 'gm', 'gmb', 'gt', 'gg', 'gmx', 'gtx', 'fnx'):
                     call(tuple(h), root)
             got = call(d, root)
             return jsonable(got) == jsonable(want), {'got': jsonable(got), 'want': jsonable(want)}
